@@ -26,7 +26,7 @@ import nunavut.lang
 from nunavut._utilities import TEMPLATE_SUFFIX, ResourceSearchPolicy, ResourceType, YesNoDefault
 
 from .environment import CodeGenEnvironmentBuilder
-from .jinja2 import Template
+from .jinja2 import Template, TemplateNotFound
 from .loaders import DEFAULT_TEMPLATE_PATH, DSDLTemplateLoader
 
 logger = logging.getLogger(__name__)
@@ -955,8 +955,22 @@ class SupportGenerator(CodeGenerator):
         target_language = self.language_context.get_target_language()
 
         for resource in target_language.get_support_files(resource_type):
-            files.append(resource)
+            files.append(self._rendered_template(resource))
         return files
+
+    def _rendered_template(self, resource: pathlib.Path) -> pathlib.Path:
+        """
+        The file the environment loads when a packaged support template is rendered: a template of the same name
+        in a user-provided support templates directory takes precedence over the packaged one.
+        """
+        if resource.suffix == TEMPLATE_SUFFIX:
+            try:
+                filename = self._dsdl_template_loader.get_source(self._env, resource.name)[1]
+            except TemplateNotFound:
+                filename = None
+            if filename is not None and pathlib.Path(filename).resolve() != resource.resolve():
+                return pathlib.Path(filename)
+        return resource
 
     def _generate_header(
         self, template_path: pathlib.Path, output_path: pathlib.Path, is_dryrun: bool, allow_overwrite: bool
